@@ -140,6 +140,7 @@ def t2_reference(mem_at, cc2):
         if ln == 255:
             ln = mem_at(off + 2) << 8 | mem_at(off + 3)
             p = off + 4
+        head = p
         addrs = []
         for _ in range(ln):
             while p in skip:
@@ -147,7 +148,7 @@ def t2_reference(mem_at, cc2):
             addrs.append(p)
             p += 1
         if t == 3:
-            return {"off": off, "length": ln, "addrs": addrs, "area_end": area_end, "skip": skip}
+            return {"off": off, "length": ln, "addrs": addrs, "area_end": area_end, "skip": skip, "head": head}
         if t in (1, 2) and ln == 3:
             v = [mem_at(a) for a in addrs]
             start = (v[0] >> 4) * (1 << (v[2] & 15)) + (v[0] & 15)
@@ -227,6 +228,7 @@ def t1_reference(mem_at):
         if ln == 255:
             ln = mem_at(off + 2) << 8 | mem_at(off + 3)
             p = off + 4
+        head = p
         addrs = []
         for _ in range(ln):
             while p in skip:
@@ -234,7 +236,7 @@ def t1_reference(mem_at):
             addrs.append(p)
             p += 1
         if t == 3:
-            return {"off": off, "length": ln, "addrs": addrs, "area_end": area_end, "skip": skip}
+            return {"off": off, "length": ln, "addrs": addrs, "area_end": area_end, "skip": skip, "head": head}
         if t in (1, 2) and ln == 3:
             v = [mem_at(a) for a in addrs]
             start = (v[0] >> 4) * (1 << (v[2] & 15)) + (v[0] & 15)
